@@ -4,6 +4,7 @@ package main
 
 import (
 	"fmt"
+	"go/token"
 	"sort"
 	"strings"
 
@@ -162,6 +163,16 @@ func (l *svcLocks) trioWrites(fn *ssa.Function, depth int, memo map[*ssa.Functio
 						}
 					}
 				}
+			case *ssa.UnOp:
+				// a read of a batch field belongs to the swap as well (marked "r:" — it does not count as a written field)
+				if fa, ok := x.X.(*ssa.FieldAddr); ok && x.Op == token.MUL {
+					k := fieldKey(fa.X.Type(), fa.Field)
+					if strings.Contains(k, "service.InsertServiceV2.") {
+						if f := k[strings.LastIndex(k, ".")+1:]; b2Trio[f] {
+							out[ins] = append(out[ins], "r:"+f)
+						}
+					}
+				}
 			case *ssa.Call:
 				sc := x.Common().StaticCallee()
 				if sc == nil || depth >= 3 || !strings.HasPrefix(fnPkgRel(sc), "writer/service") || len(sc.Blocks) == 0 || l.lockOps(sc) > 0 {
@@ -186,7 +197,7 @@ func (l *svcLocks) trioWrites(fn *ssa.Function, depth int, memo map[*ssa.Functio
 var ruleB2 = &Rule{
 	ID:    "B2",
 	Floor: 2,
-	Doc: "atomic buffer swap (SSA, interprocedural): in every live function of writer/service that writes two or more of the shared batch fields (columns, results, size) — by its own stores or through helpers that do not take the lock themselves — all those writes happen within one single hold of the service mutex: the region of one Lock call (to the matching Unlock on every path, to the end when the Unlock is deferred), " +
+	Doc: "atomic buffer swap (SSA, interprocedural): in every live function of writer/service that writes two or more of the shared batch fields (columns, results, size) — by its own stores or through helpers that do not take the lock themselves — all those writes, and every read of those fields the function makes, happen within one single hold of the service mutex: the region of one Lock call (to the matching Unlock on every path, to the end when the Unlock is deferred), " +
 		"or, for a helper that never touches the lock, a function all of whose call sites are in such a region. Splitting the swap into two lock holds lets a request append rows to columns that are already swapped out while its promise stays with the next batch",
 	Run: func(c *Ctx) []Obl {
 		var obls []Obl
@@ -200,7 +211,9 @@ var ruleB2 = &Rule{
 			fields := map[string]bool{}
 			for _, fs := range writes {
 				for _, f := range fs {
-					fields[f] = true
+					if !strings.HasPrefix(f, "r:") {
+						fields[f] = true
+					}
 				}
 			}
 			if len(fields) < 2 {
